@@ -359,13 +359,19 @@ func runC19(c *Ctx) {
 		if negFn == nil {
 			c.Unk("C19.W6-accept-header", "rwriter › unsupported media type rejected", token.NoPos, "no 'media type not supported' error found in the writer")
 		} else {
+			// "a supported media type was found": a boolean computed while scanning the header — a flag variable, a
+			// result of the scanning helper, or a field of the per-call parser object — as opposed to the JSON-preference option
 			boolPhi := func(x *X, _ Binds) bool {
 				x = strip(x)
-				if x == nil || x.Op != "phi" || x.V == nil {
+				if x == nil || x.V == nil || !(x.Op == "phi" || x.Op == "extract" || x.Op == "field") {
 					return false
 				}
 				b, ok := x.V.Type().Underlying().(*types.Basic)
-				return ok && b.Kind() == types.Bool
+				if !ok || b.Kind() != types.Bool {
+					return false
+				}
+				isPref := (x.Op == "field" || x.Op == "param") && strings.EqualFold(x.Name, "preferJson")
+				return !isPref
 			}
 			alts := []Alt{{Bin("==", Op("builtin", "len", Any()), Const("0")), true}, {boolPhi, true}}
 			okAll, n := true, 0
